@@ -189,7 +189,10 @@ _PRISTINE = {c: dict(v) for c, v in CONF.items()}
 
 def _walk(args):
     """All paths below one first edge (depth-first); returns (steps, mismatches)."""
-    first_label, first_dst, limit = args
+    first_label, first_dst, limit = args[:3]
+    sample_p = args[3] if len(args) > 3 else 1.0     # below the fifth step only this fraction of the successors is followed (seeded)
+    import random as _rnd
+    rs = _rnd.Random("%s/%s" % (first_label, first_dst))
     graph, g = _G["graph"], _G["gamma"]
     bec0 = Bec2File(Bf3File({"Other": "keep"}), [], KEY)
     steps, bad = 0, []
@@ -224,6 +227,8 @@ def _walk(args):
                 bad.append({"history": h2, "real": got, "spec": want})
             continue                          # the real object no longer corresponds to a spec state below this point
         for (lab, nxt) in graph.out.get(dst, ()):
+            if sample_p < 1.0 and len(h2) >= 5 and rs.random() > sample_p:
+                continue
             stack.append((dst, b2, h2, lab, nxt))
         if limit and steps >= limit:
             break
@@ -233,6 +238,10 @@ def _walk(args):
 def run(tier):
     rep = Report("C11", tier)
     depth = 4 if tier == "quick" else 6
+    # (29 operations: every path up to 4 steps [quick] / 5 steps [thorough]; of the paths of 6 steps a seeded 5 % sample of the last step)
+    sample_p = 1.0 if tier == "quick" else 0.05
+    if os.environ.get("VERIF_ENVPASS"):
+        depth, sample_p = 4, 1.0            # (the second interpreter mode repeats the quick walk)
     with Scratch("c11") as wd:
         dump = os.path.join(wd, "g.dot")
         res = tlc.require_ok(tlc.run(os.path.join(SPEC, "ObjModel.tla"), cfg("FALSE", 2, depth), os.path.join(wd, "mc"), workers=16,
@@ -259,7 +268,7 @@ def run(tier):
         graph.nodes[some[1]] = saved
         if not b0:
             raise MachineryError("walk self-test: wrong expected state not noticed")
-        jobs = [(lab, dst, 0) for (lab, dst) in graph.out[graph.init]]
+        jobs = [(lab, dst, 0, sample_p) for (lab, dst) in graph.out[graph.init]]
         with mp.Pool(min(16, len(jobs))) as pool:          # fork: workers inherit _G
             outs = pool.map(_walk, jobs)
         total = sum(o[0] for o in outs)
